@@ -308,7 +308,23 @@ func main(n : int) -> int { print(S::TWO + 0); print(A::X + 0); print(A::Y + 0);
 """, dict(shape=True, expect_out="2\r\n43\r\n44\r\n", expect_res="I0")))
     return out
 
-FAMILIES = [tail_family, deeprec_family, alloc_family, exc_family, idx_family, api_family, shapes_family]
+def builtins_family(rng):
+    """every non-FFI build-in called through its wrapper (the wrappers are emitted for every program, executed only when called)"""
+    a, b = rng.range(2, 60), rng.range(2, 9)
+    return [("builtins_all", """
+func main(n : int) -> int {
+    let s = str(%d) + strf(1.5) + "x";
+    let c = chr(ord('a') + %d);
+    print(%d); printl(%dL); printb(n == n); printf(2.25); printd(3.5d); printc(c); prints(s);
+    assert(length(s) > 0); assertf(1.0, 2.0);
+    let p1 = c_int_ptr(n); let p2 = c_long_ptr(7L); let p3 = c_float_ptr(1.0); let p4 = c_double_ptr(2.0d);
+    let p5 = c_bool_ptr(true); let p6 = c_char_ptr(c); let p7 = c_string_ptr(s); let p8 = c_ptr_ptr(p1);
+    let q = sqrt(16.0) + pow(2.0, 3.0) + sin(0.0) + cos(0.0) + exp(0.0) + log(1.0) + tan(0.0);
+    length(s) + ord(c)
+}
+""" % (a, b, a, a), dict(api=True))]
+
+FAMILIES = [tail_family, deeprec_family, alloc_family, exc_family, idx_family, api_family, shapes_family, builtins_family]
 
 def generate(seed, rounds=1):
     rng = Rng(seed)
